@@ -299,6 +299,9 @@ def h_xunitary_s2(g, pairs, zero):
     except CircuitError:
         g.fact("CircuitError is acceptable", True)
         return
+    except (IndexError, KeyError, TypeError, AttributeError) as e:
+        g.fact("compile raises nothing but CircuitError", False, detail="%s: %s" % (type(e).__name__, e))
+        return
     like_arr = fn.zeros((1,), sarray([0]) if g.sym else np.zeros(1))
     Sref, dref = c11.net_map(chain, n, like_arr)
     names = [type(c.op).__name__ for c in out.circuit]
@@ -318,9 +321,10 @@ def h_xunitary_s2(g, pairs, zero):
 def build(ctx):
     fx = ["compilers.xunitary.Xunitary.compile (squeezer grouping and merging, identity interferometer)", "compilers.gbs.GBS.compile",
           "program_utils.group_operations", "ops.Interferometer._decompose (numeric identity)"]
-    fam = [([0], []), ([0, 0], []), ([0, 1], []), ([0, 0], [0]), ([0, 0], [1]), ([1, 0, 1], []), ([0, 1, 0], [0])]
+    fam = [([0], []), ([0, 0], []), ([0, 1], []), ([0, 0], [0]), ([0, 0], [1]), ([1, 0, 1], []), ([0, 1, 0], [0]),
+           ([1, 1, 0, 0], []), ([0, 1, 0, 1], [])]
     if ctx.thorough:
-        fam += [([0, 0, 0], []), ([0, 0, 0], [1]), ([1, 1, 0, 0], []), ([0, 0, 1], [2])]
+        fam += [([0, 0, 0], []), ([0, 0, 0], [1]), ([0, 0, 1, 1], [1]), ([0, 0, 1], [2]), ([0, 1, 0, 1, 1], [])]
     for pairs, zero in fam:
         ctx.add("xunitary.squeezers.%s.zero%s" % ("".join(map(str, pairs)), "".join(map(str, zero))), h_xunitary_s2,
                 {"pairs": pairs, "zero": zero}, modules=lambda: mods() + _xmods(), functions=fx,
